@@ -174,6 +174,15 @@ func (w *DocWriter) value(sb *strings.Builder, n *Node, owner *Node, term string
 				wrap = true
 				w.note(k + " (single item) as a one-element array")
 			}
+			if child.Kind == "nlv" && len(child.List) > 1 && strings.HasPrefix(child.List[0].S, "-\x00") && w.R.Intn(2) == 0 {
+				// an untagged text next to tagged ones: the plain term for the former, the Map term for the rest
+				plainText := strings.SplitN(child.List[0].S, "\x00", 2)[1]
+				rest := &Node{Kind: "nlv", List: child.List[1:]}
+				w.note(k + " as plain string plus language map")
+				ms = append(ms, member{k, func(sb *strings.Builder) { w.String(sb, plainText) }},
+					member{k + "Map", func(sb *strings.Builder) { w.value(sb, rest, n, k, true) }})
+				continue
+			}
 			ms = append(ms, member{name, func(sb *strings.Builder) {
 				if wrap {
 					sb.WriteByte('[')
